@@ -2748,7 +2748,10 @@ impl Lexer<'_> {
         // of lexing possibly escaped text in a string expression
         let mut lit_start_idx = self.buffer.next_string_literal_start();
         let mut lit_end_idx = lit_start_idx;
-        let mut last_lit_end_byte_offset = self.cur_byte_offset();
+        // The text starts at the token start: the caller may have already
+        // consumed the leading character(s) of this token
+        let mut last_lit_end_byte_offset = self.cur_token_byte_offset;
+        let mut seen_escape = false;
 
         while let Some(c) = self.cursor.peek() {
             match c {
@@ -2761,6 +2764,7 @@ impl Lexer<'_> {
                         lit_end_idx,
                         last_lit_end_byte_offset,
                         None, // will use the current byte offset
+                        seen_escape,
                     );
 
                     emit_token_update_nesting(self, local_parens_nesting, payload);
@@ -2775,6 +2779,7 @@ impl Lexer<'_> {
                         lit_end_idx,
                         last_lit_end_byte_offset,
                         None, // will use the current byte offset
+                        seen_escape,
                     );
 
                     emit_token_update_nesting(self, local_parens_nesting, payload);
@@ -2790,6 +2795,7 @@ impl Lexer<'_> {
                             lit_end_idx,
                             last_lit_end_byte_offset,
                             None, // will use the current byte offset
+                            seen_escape,
                         );
 
                         emit_token_update_nesting(self, local_parens_nesting, payload);
@@ -2810,6 +2816,7 @@ impl Lexer<'_> {
                             self.add_string_literal_from_src(last_lit_end_byte_offset, None);
                         lit_start_idx = min(lit_start_idx, new_start);
                         lit_end_idx = new_end;
+                        seen_escape = true;
 
                         // Now advance the cursor past the percent
                         self.cursor.advance();
@@ -2830,6 +2837,7 @@ impl Lexer<'_> {
                             lit_end_idx,
                             last_lit_end_byte_offset,
                             None, // will use the current byte offset
+                            seen_escape,
                         );
 
                         emit_token_update_nesting(self, local_parens_nesting, payload);
@@ -2861,6 +2869,7 @@ impl Lexer<'_> {
                         lit_end_idx,
                         last_lit_end_byte_offset,
                         None, // will use the current byte offset
+                        seen_escape,
                     );
 
                     self.emit_token(TokenChannel::DEFAULT, TokenType::MacroString, payload);
@@ -2882,6 +2891,7 @@ impl Lexer<'_> {
             lit_end_idx,
             last_lit_end_byte_offset,
             None, // will use the current byte offset
+            seen_escape,
         );
 
         emit_token_update_nesting(self, local_parens_nesting, payload);
@@ -2973,6 +2983,7 @@ impl Lexer<'_> {
         // for the last literal section added to the buffer. Basically this
         // allows "skipping" parts of the source text that are quote characters
         let mut last_lit_end_byte_offset = self.cur_byte_offset();
+        let mut seen_escape = false;
 
         // Now lex the string
         loop {
@@ -2987,6 +2998,7 @@ impl Lexer<'_> {
                                 self.add_string_literal_from_src(last_lit_end_byte_offset, None);
                             lit_start_idx = min(lit_start_idx, new_start);
                             lit_end_idx = new_end;
+                            seen_escape = true;
 
                             // And only then advance the cursor
                             self.cursor.advance();
@@ -3012,6 +3024,7 @@ impl Lexer<'_> {
                     lit_end_idx,
                     last_lit_end_byte_offset,
                     None, // will use the current byte offset
+                    seen_escape,
                 );
 
                 self.emit_token(TokenChannel::DEFAULT, TokenType::StringLiteral, payload);
@@ -3055,6 +3068,7 @@ impl Lexer<'_> {
                 lit_end_idx,
                 last_lit_end_byte_offset,
                 str_text_end_byte_offset,
+                seen_escape,
             )
         });
 
@@ -3082,14 +3096,20 @@ impl Lexer<'_> {
     /// * `str_text_end_byte_offset` - The byte offset of the end of the string text
     ///    that is being lexed. Not including closing quote or anything after it.
     ///   If `None`, the current byte offset is used.
+    /// * `seen_escape` - Whether the text had an escaped char, i.e. needs a payload
     fn resolve_string_literal_payload(
         &mut self,
         lit_start_idx: u32,
         cur_lit_end_idx: u32,
         last_lit_end_byte_offset: ByteOffset,
         str_text_end_byte_offset: Option<ByteOffset>,
+        seen_escape: bool,
     ) -> Payload {
-        if lit_start_idx == cur_lit_end_idx {
+        // An escape at the very start of the text adds an empty first section,
+        // so the buffer indices alone can't tell whether a payload is needed
+        debug_assert!(seen_escape || lit_start_idx == cur_lit_end_idx);
+
+        if !seen_escape {
             Payload::None
         } else {
             // Make sure we've added the trailing literal section
@@ -3256,7 +3276,10 @@ impl Lexer<'_> {
         // of lexing possibly escaped text in a string expression
         let mut lit_start_idx = self.buffer.next_string_literal_start();
         let mut lit_end_idx = lit_start_idx;
-        let mut last_lit_end_byte_offset = self.cur_byte_offset();
+        // The text starts at the token start: the caller may have already
+        // consumed the leading character(s) of this token
+        let mut last_lit_end_byte_offset = self.cur_token_byte_offset;
+        let mut seen_escape = false;
 
         // Now lex the string
         while let Some(c) = self.cursor.peek() {
@@ -3273,6 +3296,7 @@ impl Lexer<'_> {
                             lit_end_idx,
                             last_lit_end_byte_offset,
                             None, // will use the current byte offset
+                            seen_escape,
                         );
 
                         self.emit_token(TokenChannel::DEFAULT, TokenType::StringExprText, payload);
@@ -3293,6 +3317,7 @@ impl Lexer<'_> {
                             lit_end_idx,
                             last_lit_end_byte_offset,
                             None, // will use the current byte offset
+                            seen_escape,
                         );
 
                         self.emit_token(TokenChannel::DEFAULT, TokenType::StringExprText, payload);
@@ -3317,6 +3342,7 @@ impl Lexer<'_> {
                             self.add_string_literal_from_src(last_lit_end_byte_offset, None);
                         lit_start_idx = min(lit_start_idx, new_start);
                         lit_end_idx = new_end;
+                        seen_escape = true;
 
                         // And only then advance the cursor
                         self.cursor.advance();
@@ -3344,6 +3370,7 @@ impl Lexer<'_> {
                         lit_end_idx,
                         last_lit_end_byte_offset,
                         None, // will use the current byte offset
+                        seen_escape,
                     );
 
                     if last_tok_is_start {
@@ -3369,6 +3396,7 @@ impl Lexer<'_> {
             lit_end_idx,
             last_lit_end_byte_offset,
             None, // will use the current byte offset
+            seen_escape,
         );
 
         self.handle_unterminated_str_expr(payload);
